@@ -108,7 +108,7 @@ const char *end_reason_name(EndReason r);
 
 // event history of one execution (also the input of the determinism hash)
 struct Event {
-  enum K : uint8_t { BLOCK, COND, ASSERT, HAVOC, CALL, RET, END, FAULT } k;
+  enum K : uint8_t { BLOCK, COND, ASSERT, HAVOC, CALL, RET, END, FAULT, SELECT } k;
   std::string a; // block label / callee / reason
   int64_t id = 0;  // assertion id / havoc tag / stmt ordinal
   bool outcome = false;
